@@ -25,20 +25,20 @@ if [ "$REPO" != /repo ]; then
   sed "s#=> /repo#=> $REPO#" go.mod > "$D/go.mod" && cp go.sum "$D/go.sum" || exit 2
   MODFLAG="-modfile=$D/go.mod"
 fi
-[ -x "$B/instr" ] || go build -o "$B/instr" ./instr || { echo "ERROR: cannot build instr"; exit 2; }
+go build -o "$D/instr" ./instr || { echo "ERROR: cannot build instr"; exit 2; }
 case $PROP in
   C04|C05|C06|C07|C08)
     # the driver's context watcher (module cache) is rewritten too; the module
     # index of the go command does not see overlays of module-cache files
     export GODEBUG=goindex=0
     DRV=$(go list $MODFLAG -m -f '{{.Dir}}' github.com/Breeze0806/mysql) || { echo "ERROR: cannot locate the driver module"; exit 2; }
-    "$B/instr" -repo "$REPO" -out "$D/ov" -sched -driver "$DRV" || exit 2
+    "$D/instr" -repo "$REPO" -out "$D/ov" -sched -driver "$DRV" || exit 2
     if ! go build $MODFLAG -overlay "$D/ov/overlay.json" -tags verif -o "$D/engine" ./cmd/vsched > "$D/build.log" 2>&1; then
       cat "$D/build.log"; echo "ERROR: cannot build the instrumented engine (see above)"; exit 2
     fi
     if [ "$ID" != replay ] && { [ "$PROP" = C05 ] || [ "$PROP" = C06 ]; }; then
       # companions: the uninstrumented library, free-running (conformance) and under -race
-      "$B/instr" -repo "$REPO" -out "$D/ovn" || exit 2
+      "$D/instr" -repo "$REPO" -out "$D/ovn" || exit 2
       if go build $MODFLAG -overlay "$D/ovn/overlay.json" -tags verif -o "$D/native" ./cmd/e1native > "$D/build.log" 2>&1; then
         export VERIF_NATIVE_BIN="$D/native"
       else
@@ -56,7 +56,7 @@ case $PROP in
     PKG=./cmd/mc
     LC=$(echo "$PROP" | tr A-Z a-z)
     [ -d "./cmd/mc-$LC" ] && PKG=./cmd/mc-$LC   # development binary of a single check
-    "$B/instr" -repo "$REPO" -out "$D/ov" || exit 2
+    "$D/instr" -repo "$REPO" -out "$D/ov" || exit 2
     if ! go build $MODFLAG -overlay "$D/ov/overlay.json" -tags verif -o "$D/engine" $PKG > "$D/build.log" 2>&1; then
       cat "$D/build.log"; echo "ERROR: cannot build the engine (see above)"; exit 2
     fi ;;
